@@ -32,9 +32,9 @@ def inherit_values(tag):
     out = {}
     for j, f in enumerate(INHERIT):
         out[f] = ((tag * (j + 7) * 7919 + j * 10007) % 3001) / 8.0 - 150.0 + 0.1 * j
-    out["tomo_id"] = float(tag % 5 + 1)
-    out["object_id"] = float(tag % 3 + 1)
-    out["class"] = float(tag % 2 + 1)
+    out["tomo_id"] = float(tag % 5)                 # identifier columns take the value 0, too
+    out["object_id"] = float(tag % 3)
+    out["class"] = float(tag % 2)
     return out
 
 
@@ -132,7 +132,10 @@ def run_exact(ctx, rec, variant):
 
 # ---- L3: real-valued lists -----------------------------------------------------------------------------------
 def gen_float_case(rng, idx, n, spelling, npart):
-    ids = rng.sample(range(1, 4 * npart + 10), npart)
+    base = rng.choice([0, 0, 0, 100000, 249990])      # subtomogram numbers incl. 0, and large consecutive ones
+    ids = [base + v for v in rng.sample(range(0, 4 * npart + 10), npart)]
+    if rng.random() < 0.3:
+        ids = [base + v for v in rng.sample(range(0, npart), npart)]          # consecutive from 0 / from the base
     parts = []
     for k in range(npart):
         theta = rng.choice([0.0, 180.0, rng.uniform(0, 180), rng.uniform(-180, 180), 90.0])
